@@ -68,6 +68,11 @@ class CallMixin:
             self.comp_to_list(v, st, lambda lv, s: res.append(lv) or [])
             if len(res) == 1:
                 return [StarList(self.get_list(st, res[0]))]
+        if isinstance(v, Val) and v.ty[0] == "ref" and v.ty[1] is None:
+            # an opaque tuple (e.g. a stored *token): unknown content
+            lv = LVal(ANY, fresh("star_a", z3.ArraySort(z3.IntSort(), RefS)), fresh("star_n", z3.IntSort()), "tuple")
+            st.assume(lv.n >= 0)
+            return [StarList(lv)]
         raise Unsupported("star-unpacking of %r" % (v,))
 
     def call_value(self, f, args, kwargs, st, k, node=None):
